@@ -14,6 +14,10 @@ Events (JSON-able tuples):
   ("assign", T, key, attr, n)     setattr(atom, attr, <sentinel n>)
   ("mutate", T, key, attr, n)     mutate the served object in place (dict item / attribute / list append)
   ("digest", T, atoms)            digest of every lazy attribute of the listed atoms (end of history)
+  ("dumps", T, key, attr)         pickle.dumps(getattr(atom, attr))   -> ["val", digest, hex of the pickle data]
+  ("loads", T, key, attr, hex)    pickle.loads of such data (taken in another process, under another first-touch
+                                  order)  -> ["val", digest of the restored value, digest of what is computed from it]
+  ("served", T, key, attr)        ["val", digest of the served value, digest of what is computed from it]
 
 Outcome of an event: ["val", digest] | ["exc", class name] | ["bool", b] | ["ok"].
 """
@@ -87,6 +91,28 @@ def _dig(v, depth=0):
 
 def digest(v):
     return hashlib.sha1(_dig(v).encode()).hexdigest()[:16]
+
+
+def derived(v, attr):
+    """what is computed from a served lazy value by its own methods (no further attribute of any atom is read)"""
+    out = []
+
+    def call(label, fn):
+        try:
+            out.append((label, fn()))
+        except Exception as e:  # noqa
+            out.append((label, "raises " + type(e).__name__))
+    if attr == "xray":
+        call("f0", lambda: v.f0(0.5))
+        call("scattering_factors", lambda: v.scattering_factors(energy=8.0))
+        call("element", lambda: v.element)
+    elif attr == "neutron":
+        call("has_sld", lambda: v.has_sld())
+        call("sld", lambda: v.sld())
+        call("scattering", lambda: v.scattering(wavelength=4.75))
+    elif attr == "magnetic_ff":
+        call("j0", lambda: sorted((k, x.j0_Q(0.3)) for k, x in v.items()))
+    return out
 
 
 # probe atoms of the laboratory (set by state_lazy before the pool forks): `mutate` reports which of them
@@ -207,6 +233,23 @@ class Child:
                 shared = [list(k) for k in PROBE_KEYS if tuple(k) != tuple(ev[2]) and self.peek(ev[1], k, ev[3]) is v]
                 return ["ok", src, shared]
             return self.outcome(mut)
+        if k == "dumps":
+            def dmp():
+                import pickle
+                v = getattr(self.atom(ev[1], ev[2]), ev[3])
+                return ["val", digest(v), pickle.dumps(v).hex()]
+            return self.outcome(dmp)
+        if k == "loads":
+            def lds():
+                import pickle
+                v = pickle.loads(bytes.fromhex(ev[4]))
+                return ["val", digest(v), digest(derived(v, ev[3]))]
+            return self.outcome(lds)
+        if k == "served":
+            def srv():
+                v = getattr(self.atom(ev[1], ev[2]), ev[3])
+                return ["val", digest(v), digest(derived(v, ev[3]))]
+            return self.outcome(srv)
         if k == "digest":
             out = []
             for key in ev[2]:
@@ -278,6 +321,11 @@ def calc(ch, name, arg, T="public"):
         return pt.neutron_scattering(arg, density=1.0, wavelength=1.798)
     if name == "xray_sld":
         return pt.xray_sld(arg, density=1.0, energy=8.0)
+    if name == "neutron_sld_wl":       # arg = [compound, wavelength]
+        return pt.neutron_sld(arg[0], density=7.407, wavelength=arg[1])
+    if name == "atom_scattering_wl":   # arg = [Z, A, q, wavelength]
+        nb = ch.atom(T, tuple(arg[:3])).neutron
+        return [nb.scattering_by_wavelength(arg[3]), nb.sld(wavelength=arg[3])]
     if name == "atom_sld":      # element.neutron.sld() on an atom key
         return ch.atom(T, tuple(arg)).neutron.sld()
     if name == "atom_xray_sld":
